@@ -1,5 +1,6 @@
 """C09 — the main process's verdict to a client matches what the workers did."""
-import os, re
+import json, os, re
+import rustmini
 import vlib
 from vlib import Case
 
@@ -28,13 +29,13 @@ ASSUMPTIONS = [
     "process management (fork/exec of workers, upgrade of the main process or of a worker, automatic restart) is excluded; workers are socket peers",
 ]
 TRUSTED = [
-    "translator props/c09.py:translate extracts from bin/src/command/{server,requests}.rs: the argument of on_finish in handle_finishing_task, the two flags and comparisons of the run loop, has_finished, the on_message arms, the in-flight retire/purge, the scatter filter, the verdict conditions of WorkerTask/LoadStateTask/StopTask, the Timeout of every scatter, the answers to unserved verbs",
+    "translator props/c09.py:translate extracts from bin/src/command/{server,requests}.rs: the argument of on_finish in handle_finishing_task, the two flags and comparisons of the run loop, has_finished, the on_message arms, the in-flight retire/purge, the scatter filter, the verdict tables of WorkerTask/LoadStateTask/StopTask (their if/else/return skeleton is run for every combination of no-error/some-error, timed_out, hardness), the Timeout of every scatter, the answers to unserved verbs. Private functions are found through their call sites and locals may have any name; a construct it cannot read is reported `unreadable:`, the corresponding piece of Gen.v then comes from the committed snapshot props/c09_facts.json and the run falls back on the correspondence (TRANSLATE_FALLBACK); the two in-flight purges and the hand-over layout are not covered by that fallback and stay hard failures",
 ]
 LEVEL_TEXT = ("Machine-checked proof (Coq 8.16) over an executable model of the main process' scatter/gather loop whose decision "
               "tables are regenerated from bin/src/command/{server,requests}.rs on every run; the model is tied to the real "
               "CommandHub by a differential correspondence run (hub thread + fake workers + scripted clients, deterministic "
               "barriers) with the property's own oracle evaluated on the implementation.")
-LEVEL_NOTE = ("Trusted: Coq kernel; extraction and ocaml/driver.ml for the correspondence only; the translator's regexes; the "
+LEVEL_NOTE = ("Trusted: Coq kernel; extraction and ocaml/driver.ml for the correspondence only; the translator (props/c09.py) and, when it reports `unreadable:`, the snapshot props/c09_facts.json; the "
               "barrier argument for determinism. Outside the model: ConfigState::dispatch (accepted/rejected is case data), audit "
               "emission, event subscription fan-out, fork/exec and upgrade of processes, the Channel (C11). ok_is_sound covers the "
               "tasks whose OK claims application (worker verbs, load-state, soft/hard stop). Query, metrics and status tasks answer OK "
@@ -63,33 +64,34 @@ REQUESTS = "bin/src/command/requests.rs"
 
 # ---------------------------------------------------------------------------
 # translator (T-table): decision tables of the scatter/gather loop -> coq/C09/Gen.v
+#
+# The reader looks for what the code does, not for how it is spelled: comments and string contents are dropped,
+# functions are found by brace matching (any signature layout), locals and parameters may have any name, private
+# helpers are found through their call sites (the function called from the CloseSession arm, the function the run
+# loop hands a finished task to, ...), comparisons may be written either way round, and the verdict of every
+# on_finish is computed by *executing* its if/else/return skeleton for every combination of (errors = 0 | > 0,
+# timed_out, hardness) instead of matching its text.
+#
+# A construct that is not recognised is reported `unreadable: ...`; the piece of Gen.v it feeds is then generated
+# from the committed snapshot props/c09_facts.json (`python3 props/c09.py --snapshot` rewrites it; ./check never
+# does) and ./check falls back on the driver/model correspondence (TRANSLATE_FALLBACK).  A construct that IS
+# recognised and carries another value goes into Gen.v as read, and the gen_* lemmas of C09/Proofs.v fail.
+# The two facts no driver observation depends on (the in-flight purges) and the layout of UpgradeData are reported
+# without the `unreadable:` prefix: they stay hard failures.
 
-def body_after(src, start_re, what, fails):
-    """text of the brace-balanced block that follows the first match of start_re"""
-    m = re.search(start_re, src)
-    if not m:
-        fails.append("%s: not found (%s)" % (what, start_re))
-        return ""
-    i = src.find("{", m.end() - 1)
-    if i < 0:
-        fails.append("%s: no body" % what)
-        return ""
-    depth, j = 0, i
-    while j < len(src):
-        ch = src[j]
-        if ch == "{":
-            depth += 1
-        elif ch == "}":
-            depth -= 1
-            if depth == 0:
-                return src[i:j + 1]
-        j += 1
-    fails.append("%s: unbalanced body" % what)
-    return ""
+FACTS = os.path.join(os.path.dirname(os.path.abspath(__file__)), "c09_facts.json")
+W = r"[A-Za-z_]\w*"
 
-
-def strip_comments(s):
-    return re.sub(r"//[^\n]*", "", s)
+TRANSLATE_FALLBACK = (
+    "the only facts ever reported `unreadable:` are the verdict tables of WorkerTask / LoadStateTask / StopTask::on_finish, "
+    "and only when a finish_* call or a return sits inside a construct the skeleton interpreter does not execute (a match, a "
+    "closure, an `if let`); a recognised skeleton giving another table, or 0 / 2 final answers on some path, is a hard failure. "
+    "Every final status the real CommandHub sends is compared with the model's case by case, and the generator drives each of "
+    "the three task kinds with failing, silent (past the worker timeout) and closed workers, so another verdict for any "
+    "combination of (some error, timed out, hardness) is a violation of the correspondence: harmless/C09_mine_unreadable_changed, "
+    "C09_mine_unreadable_load_changed and C09_mine_unreadable_stop_changed are such changes in an unreadable spelling and exit 1. Everything else the translator "
+    "reads (flags, comparisons, arms, retire, purges, scatter, ids, timeouts, unserved verbs, hand-over) is a hard failure "
+    "when it is not recognised")
 
 
 CMP_NAT = {">=": "Nat.leb {b} ({a})", ">": "Nat.ltb {b} ({a})", "==": "Nat.eqb ({a}) {b}",
@@ -97,290 +99,985 @@ CMP_NAT = {">=": "Nat.leb {b} ({a})", ">": "Nat.ltb {b} ({a})", "==": "Nat.eqb (
 CMP_N = {"<": "N.ltb {a} {b}", "<=": "N.leb {a} {b}", ">": "N.ltb {b} {a}", ">=": "N.leb {b} {a}"}
 
 
-def cond_to_coq(expr, atoms, fails, what):
-    """tiny boolean-expression translator: atoms joined by || && ! ( )"""
-    toks = re.findall(r"\|\||&&|!(?!=)|\(|\)|[A-Za-z_][A-Za-z_0-9.]*\s*(?:>=|<=|==|!=|>|<)\s*\d+|[A-Za-z_][A-Za-z_0-9.]*", expr)
-    if "".join(toks).replace(" ", "") != expr.replace(" ", "").replace("\n", ""):
-        fails.append("%s: condition %r not understood" % (what, expr))
-        return "false"
+class Unreadable(Exception):
+    """the construct could not be found / parsed at all"""
+
+
+class Differs(Exception):
+    """the construct was found and does not say what the model says: always a hard failure"""
+
+
+def drop_macros(src, name_re=r"debug_assert\w*"):
+    """remove every `<name>!( ... )` (the assertions restate what the code does; they are not the code)"""
+    out, i = [], 0
+    for m in re.finditer(r"\b(?:%s)!\s*\(" % name_re, src):
+        if m.start() < i:
+            continue
+        out.append(src[i:m.start()])
+        i = rustmini.match_brace(src, m.end() - 1, "(", ")") + 1
+    out.append(src[i:])
+    return "".join(out)
+
+
+def rs(path):
+    return drop_macros(rustmini.strip(open(os.path.join(vlib.REPO, path)).read()))
+
+
+def fn_at(src, name_re, what=None):
+    """-> (params text, body text) of the first `fn <name_re>`; any generics / layout / return type"""
+    m = re.search(r"\bfn\s+(?:%s)\b" % name_re, src)
+    if not m:
+        raise Unreadable("%s: function not found" % (what or name_re))
+    i = src.find("(", m.end())
+    try:
+        j = rustmini.match_brace(src, i, "(", ")")
+        k = j
+        depth = 0
+        while k < len(src):
+            c = src[k]
+            if c in "([":
+                depth += 1
+            elif c in ")]":
+                depth -= 1
+            elif c == "{" and depth <= 0:
+                break
+            elif c == ";" and depth <= 0:
+                raise Unreadable("%s: no body" % (what or name_re))
+            k += 1
+        e = rustmini.match_brace(src, k)
+    except rustmini.Unrecognised as ex:
+        raise Unreadable("%s: %s" % (what or name_re, ex))
+    return src[i + 1:j], src[k + 1:e]
+
+
+def params(ptext):
+    """[(name, type)] of a parameter list (self receivers are skipped)"""
+    out, depth, cur = [], 0, ""
+    for c in ptext + ",":
+        if c in "(<[":
+            depth += 1
+        elif c in ")>]":
+            depth -= 1
+        if c == "," and depth == 0:
+            cur = " ".join(cur.split())
+            if cur and not re.match(r"(&\s*(mut\s+)?)?self\b|mut\s+self\b", cur):
+                m = re.match(r"(?:mut\s+)?(%s)\s*:\s*(.*)$" % W, cur)
+                if m:
+                    out.append((m.group(1), m.group(2)))
+            cur = ""
+        else:
+            cur += c
+    return out
+
+
+def block_at(src, start_re, what):
+    """inside of the `{...}` that follows the first match of start_re"""
+    m = re.search(start_re, src)
+    if not m:
+        raise Unreadable("%s: not found" % what)
+    i = src.find("{", m.end() - 1)
+    if i < 0:
+        raise Unreadable("%s: no block" % what)
+    try:
+        return src[i + 1:rustmini.match_brace(src, i)]
+    except rustmini.Unrecognised as ex:
+        raise Unreadable("%s: %s" % (what, ex))
+
+
+def arms_of(body, scrutinee_re, what):
+    """arms [(pattern, body)] of the first `match <scrutinee_re> {`"""
+    inner = block_at(body, r"\bmatch\s+" + scrutinee_re + r"\s*\{", what)
+    try:
+        return rustmini.match_arms(inner)
+    except rustmini.Unrecognised as ex:
+        raise Unreadable("%s: %s" % (what, ex))
+
+
+def squash(s):
+    return re.sub(r"\s+", "", s)
+
+
+# --- a tiny evaluator for the conditions of the verdicts -------------------------------------------------------
+
+def eval_cond(expr, env):
+    """value of a boolean expression over env (names -> bool | int); Unreadable if anything else occurs in it"""
+    toks = re.findall(r"\|\||&&|>=|<=|==|!=|>|<|!|\(|\)|\d+|[A-Za-z_][\w.]*", expr)
+    if "".join(toks) != squash(expr):
+        raise Unreadable("condition `%s` is outside the vocabulary (names, numbers, comparisons, ! && || ( ))" % " ".join(expr.split()))
     pos = [0]
 
-    def atom():
-        t = toks[pos[0]]
+    def peek():
+        return toks[pos[0]] if pos[0] < len(toks) else None
+
+    def eat():
         pos[0] += 1
-        if t == "(":
-            r = disj()
-            pos[0] += 1
-            return "(" + r + ")"
+        return toks[pos[0] - 1]
+
+    def p_or():
+        a = p_and()
+        while peek() == "||":
+            eat()
+            b = p_and()
+            a = bool(a) or bool(b)
+        return a
+
+    def p_and():
+        a = p_cmp()
+        while peek() == "&&":
+            eat()
+            b = p_cmp()
+            a = bool(a) and bool(b)
+        return a
+
+    def p_cmp():
+        a = p_un()
+        if peek() in (">=", "<=", "==", "!=", ">", "<"):
+            op = eat()
+            b = p_un()
+            if isinstance(a, bool) != isinstance(b, bool):
+                raise Unreadable("condition `%s` compares a flag with a number" % expr)
+            return {">=": a >= b, "<=": a <= b, "==": a == b, "!=": a != b, ">": a > b, "<": a < b}[op]
+        return a
+
+    def p_un():
+        t = peek()
+        if t is None:
+            raise Unreadable("condition `%s` ends early" % expr)
+        eat()
         if t == "!":
-            return "negb (" + atom() + ")"
-        m = re.fullmatch(r"([A-Za-z_][A-Za-z_0-9.]*)\s*(>=|<=|==|!=|>|<)\s*(\d+)", t)
-        if m:
-            name = m.group(1)
-            if name not in atoms:
-                fails.append("%s: unknown operand %s" % (what, name))
-                return "false"
-            return "(" + CMP_NAT[m.group(2)].format(a=atoms[name], b=m.group(3)) + ")"
-        if t in atoms:
-            return atoms[t]
-        fails.append("%s: unknown operand %s" % (what, t))
-        return "false"
+            return not p_un()
+        if t == "(":
+            v = p_or()
+            if peek() != ")":
+                raise Unreadable("condition `%s`: unbalanced" % expr)
+            eat()
+            return v
+        if t.isdigit():
+            return int(t)
+        if t == "true":
+            return True
+        if t == "false":
+            return False
+        if t in env:
+            return env[t]
+        raise Unreadable("condition `%s` depends on `%s`, which is not one of %s" % (" ".join(expr.split()), t, sorted(env)))
 
-    def conj():
-        r = atom()
-        while pos[0] < len(toks) and toks[pos[0]] == "&&":
-            pos[0] += 1
-            r = "(%s && %s)" % (r, atom())
-        return r
-
-    def disj():
-        r = conj()
-        while pos[0] < len(toks) and toks[pos[0]] == "||":
-            pos[0] += 1
-            r = "(%s || %s)" % (r, conj())
-        return r
-
-    try:
-        r = disj()
-    except IndexError:
-        fails.append("%s: condition %r not understood" % (what, expr))
-        return "false"
+    v = p_or()
     if pos[0] != len(toks):
-        fails.append("%s: condition %r not understood" % (what, expr))
-    return r
+        raise Unreadable("condition `%s`: trailing tokens" % expr)
+    return v
 
 
-def translate():
-    fails = []
-    srv = strip_comments(open(os.path.join(vlib.REPO, SERVER)).read())
-    rq = strip_comments(open(os.path.join(vlib.REPO, REQUESTS)).read())
-    g = []
+FINISH = re.compile(r"\.\s*(finish_ok_with_content|finish_ok|finish_failure)\s*\(")
+HAS_EFFECT = re.compile(r"\bfinish_\w+\s*\(|\breturn\b")
 
-    # 1. handle_finishing_task: what is handed to on_finish; the in-flight purge
-    hft = body_after(srv, r"fn handle_finishing_task\(&mut self, task_id: TaskId, task: TaskContainer, timed_out: bool\)\s*\{", "handle_finishing_task", fails)
-    m = re.findall(r"task\.job\.on_finish\(&mut self\.server, client, ([^)]*)\);", hft)
-    flag = "false"
-    if len(m) != 1:
-        fails.append("handle_finishing_task: expected exactly one on_finish call")
-    else:
-        flag = cond_to_coq(m[0].strip(), {"timed_out": "timed_out", "true": "true", "false": "false"}, fails, "on_finish argument")
-    g.append("Definition on_finish_flag (timed_out : bool) : bool := %s." % flag)
-    purge = bool(re.search(r"self\.in_flight\s*\.retain\(\|_, in_flight_task_id\| \*in_flight_task_id != task_id\)", hft))
-    g.append("Definition purge_on_finish : bool := %s." % ("true" if purge else "false"))
 
-    # 2. the run loop: order, flags and comparisons of the two finishing tests
-    run = body_after(srv, r"pub fn run\(&mut self\) -> bool\s*\{", "CommandHub::run", fails)
-    m1 = re.search(r"if task\.job\.get_gatherer\(\)\.has_finished\(\) \{\s*self\.handle_finishing_task\(task_id, task, (true|false)\);\s*return None;", run)
-    m2 = re.search(r"if let Some\(timeout\) = task\.timeout \{\s*if timeout (<=|>=|<|>) now \{\s*self\.handle_finishing_task\(task_id, task, (true|false)\);\s*return None;", run)
-    if not m1 or not m2:
-        fails.append("CommandHub::run: the has_finished / timeout tests of the task filter are no longer recognised")
-        g += ["Definition flag_when_finished : bool := false.", "Definition flag_when_expired : bool := false.",
-              "Definition finished_checked_first : bool := true.", "Definition expired (deadline now : N) : bool := false."]
-    else:
-        g.append("Definition flag_when_finished : bool := %s." % m1.group(1))
-        g.append("Definition flag_when_expired : bool := %s." % m2.group(2))
-        g.append("Definition finished_checked_first : bool := %s." % ("true" if m1.start() < m2.start() else "false"))
-        g.append("Definition expired (deadline now : N) : bool := %s." % CMP_N[m2.group(1)].format(a="deadline", b="now"))
-    if len(re.findall(r"handle_finishing_task\(", run)) != 2:
-        fails.append("CommandHub::run: expected exactly two calls of handle_finishing_task")
+def exec_block(text, env, out):
+    """Run the if / else / return / let skeleton of a block under `env`; the finish_* calls met are appended to
+    `out`.  -> True when the block returned.  Anything that may hide a finish_* call or a return and is not part of
+    the skeleton (a match, a closure, an `if let`) is Unreadable; everything else is skipped."""
+    scan = re.compile(r"\bif\b|\breturn\b|\blet\s+(?:mut\s+)?(%s)\s*(?::[^=;]*)?=(?!=)|\blet\s+DefaultGatherer\s*\{([^}]*)\}\s*=\s*self\s*\.\s*gatherer\s*;|" % W
+                      + FINISH.pattern + r"|[({\[]")
+    i = 0
+    while True:
+        m = scan.search(text, i)
+        if not m:
+            return False
+        t = m.group(0)
+        if t in "({[":
+            close = {"(": ")", "{": "}", "[": "]"}[t]
+            try:
+                j = rustmini.match_brace(text, m.start(), t, close)
+            except rustmini.Unrecognised as ex:
+                raise Unreadable(str(ex))
+            if HAS_EFFECT.search(text[m.start():j]):
+                raise Unreadable("a finish_*/return sits inside a construct that is not an if/else chain: `%s...`"
+                                 % " ".join(text[max(0, m.start() - 40):m.start() + 40].split()))
+            i = j + 1
+        elif t == "return":
+            j = text.find(";", m.end())
+            j = len(text) if j < 0 else j
+            for f in FINISH.finditer(text[m.end():j]):
+                out.append(f.group(1))
+            return True
+        elif t == "if":
+            i = exec_if(text, m.start(), env, out)
+            if i is None:
+                return True
+        elif m.group(2) is not None:                       # let DefaultGatherer { ok, errors: e, .. } = self.gatherer;
+            for field in m.group(2).split(","):
+                field = field.strip()
+                fm = re.fullmatch(r"(%s)(?:\s*:\s*(%s))?" % (W, W), field)
+                if fm and ("self.gatherer." + fm.group(1)) in env:
+                    env[fm.group(2) or fm.group(1)] = env["self.gatherer." + fm.group(1)]
+            i = m.end()
+        elif m.group(1) is not None:                       # let name = expr;
+            depth, j = 0, m.end()
+            while j < len(text) and not (text[j] == ";" and depth == 0):
+                depth += text[j] in "({["
+                depth -= text[j] in ")}]"
+                j += 1
+            expr = text[m.end():j]
+            try:
+                env[m.group(1)] = eval_cond(expr, env)
+            except Unreadable:
+                env.pop(m.group(1), None)
+                if HAS_EFFECT.search(expr):
+                    raise Unreadable("a finish_*/return sits inside the initialiser of `%s`" % m.group(1))
+            i = j + 1
+        else:                                              # a finish_* call
+            out.append(m.group(3))
+            j = rustmini.match_brace(text, m.end() - 1, "(", ")")
+            i = j + 1
+
+
+def _cond_end(text, i):
+    """text[i:] starts with `if`; -> index of the `{` that opens its block"""
+    depth, k = 0, i + 2
+    while k < len(text) and not (text[k] == "{" and depth == 0):
+        depth += text[k] in "(["
+        depth -= text[k] in ")]"
+        k += 1
+    if k >= len(text):
+        raise Unreadable("an `if` without a block")
+    return k
+
+
+def exec_if(text, start, env, out):
+    """text[start:] is an `if` chain; runs the branch taken.  -> index after the chain, or None if it returned"""
+    blocks = []                                            # [(condition text | None for else, block text)]
+    p = start
+    while True:
+        k = _cond_end(text, p)
+        e = rustmini.match_brace(text, k)
+        blocks.append((text[p + 2:k], text[k + 1:e]))
+        end = e + 1
+        m = re.match(r"\s*else\b\s*", text[end:])
+        if not m:
+            break
+        p = end + m.end()
+        if re.match(r"if\b", text[p:]):
+            continue
+        e = rustmini.match_brace(text, p)
+        blocks.append((None, text[p + 1:e]))
+        end = e + 1
+        break
+    effectful = any(HAS_EFFECT.search(b) for _, b in blocks)
+    for cond, block in blocks:
+        if cond is None:
+            v = True
+        else:
+            try:
+                if re.match(r"\s*let\b", cond):
+                    raise Unreadable("`if %s ...` guards a finish_*/return" % " ".join(cond.split())[:40])
+                v = eval_cond(cond, env)
+            except Unreadable:
+                if effectful:
+                    raise
+                return end                                 # a chain without any effect: skipped altogether
+        if v:
+            return None if exec_block(block, env, out) else end
+    return end
+
+
+def verdict_table(body, env_base, combos, what):
+    """{combo: tuple of finish_* calls} of an on_finish body"""
+    table = {}
+    for combo in combos:
+        env = dict(env_base)
+        env.update(combo)
+        out = []
+        try:
+            exec_block(body, env, out)
+        except rustmini.Unrecognised as ex:
+            raise Unreadable("%s: %s" % (what, ex))
+        except Unreadable as ex:
+            raise Unreadable("%s: %s" % (what, ex))
+        table[tuple(sorted(combo.items()))] = tuple(out)
+    return table
+
+
+def on_finish_of(rq, task, what):
+    """-> (body of `impl GatheringTask for <task>`::on_finish, name of its timed_out parameter)"""
+    impl = block_at(rq, r"\bimpl\s+GatheringTask\s+for\s+%s\s*\{" % task, "impl GatheringTask for %s" % task)
+    ptext, body = fn_at(impl, "on_finish", what)
+    ps = params(ptext)
+    flags = [n for n, ty in ps if ty == "bool"]
+    if len(flags) != 1:
+        raise Unreadable("%s: expected one bool parameter (timed_out)" % what)
+    return body, flags[0]
+
+
+# --- the facts ---------------------------------------------------------------------------------------------------
+
+def read_facts(fails):
+    """-> {fact name: Coq text of the definition body, or None when the construct could not be read}"""
+    facts = {}
+    srv = rs(SERVER)
+    rq = rs(REQUESTS)
+    up = rs("bin/src/command/upgrade.rs")
+    raw_srv = open(os.path.join(vlib.REPO, SERVER)).read()
+
+    def soft(names, fn):
+        """run a reader; what it cannot read is reported `unreadable:` and left to the snapshot"""
+        try:
+            got = fn()
+        except Differs as ex:
+            fails.append(str(ex))
+            got = {}
+        except Unreadable as ex:
+            fails.append("unreadable: %s" % ex)
+            got = {}
+        except rustmini.Unrecognised as ex:
+            fails.append("unreadable: %s: %s" % ("/".join(names) or "source", ex))
+            got = {}
+        for n in names:
+            facts[n] = got.get(n)
+
+    def hard(names, fn):
+        try:
+            got = fn()
+        except (Unreadable, Differs, rustmini.Unrecognised) as ex:
+            fails.append("%s (not one of the pins the translator fallback covers)" % ex)
+            got = {}
+        for n in names:
+            facts[n] = got.get(n)
+
+    def B(b):
+        return "true" if b else "false"
+
+    # the body of CommandHub::run and, found through it, the private functions it hands work to
+    try:
+        _, run = fn_at(srv, "run", "CommandHub::run")
+        if "has_finished" not in run:
+            raise Unreadable("CommandHub::run: the task filter (has_finished) is not in the first `fn run`")
+    except Unreadable as ex:
+        fails.append(str(ex))
+        run = ""
+    calls = re.findall(r"self\s*\.\s*(%s)\s*\(\s*(%s)\s*,\s*(%s)\s*,\s*(true|false)\s*\)" % (W, W, W), run)
+    finisher = calls[0][0] if len(calls) == 2 and calls[0][0] == calls[1][0] else None
+
+    # 1. the function the run loop hands a finished task to: what it passes on_finish; the in-flight purge
+    def finishing():
+        if not finisher:
+            raise Unreadable("CommandHub::run: expected exactly two calls `self.<f>(task_id, task, true|false)` of one private function")
+        ptext, body = fn_at(srv, re.escape(finisher), finisher)
+        ps = params(ptext)
+        flags = [n for n, ty in ps if ty == "bool"]
+        ids = [n for n, ty in ps if ty == "TaskId"]
+        if len(flags) != 1 or len(ids) != 1:
+            raise Unreadable("%s: expected one TaskId and one bool parameter" % finisher)
+        m = re.findall(r"\.\s*on_finish\s*\(", body)
+        if len(m) != 1:
+            raise Unreadable("%s: expected exactly one on_finish call" % finisher)
+        i = body.index("(", re.search(r"\.\s*on_finish\s*\(", body).start())
+        args = body[i + 1:rustmini.match_brace(body, i, "(", ")")]
+        last = args.rstrip().rstrip(",").rsplit(",", 1)[-1].strip()
+        vals = {}
+        for t in (False, True):
+            env = {flags[0]: t}
+            pre = body[:i]
+            for lm in re.finditer(r"\blet\s+(%s)\s*=\s*([^;{}]*);" % W, pre):
+                try:
+                    env[lm.group(1)] = eval_cond(lm.group(2), env)
+                except Unreadable:
+                    pass
+            vals[t] = eval_cond(last, env)
+        if not isinstance(vals[True], bool) or not isinstance(vals[False], bool):
+            raise Unreadable("%s: the flag handed to on_finish is not a boolean" % finisher)
+        flag = {(False, True): "timed_out", (True, False): "negb timed_out", (True, True): "true", (False, False): "false"}[(vals[False], vals[True])]
+        return {"on_finish_flag": flag, "_finisher_body": body, "_finisher_id": ids[0]}
+    hard(["on_finish_flag", "_finisher_body", "_finisher_id"], finishing)
+
+    def purge_in(body, idname, what):
+        """does `body` drop from in_flight every request id of task `idname`?"""
+        if body is None:
+            raise Unreadable("%s: body not found" % what)
+        for m in re.finditer(r"in_flight\s*\.\s*retain\s*\(\s*\|\s*_\w*\s*,\s*(?:&\s*)?(%s)\s*\|" % W, body):
+            i = body.index("(", m.start())
+            clo = squash(body[m.end():rustmini.match_brace(body, i, "(", ")")])
+            v = re.escape(m.group(1))
+            t = re.escape(idname)
+            if re.fullmatch(r"\{?(\*?%s!=&?%s|&?%s!=\*?%s|!\(\*?%s==&?%s\))\}?" % (v, t, t, v, v, t), clo):
+                return True
+            raise Unreadable("%s: the in_flight.retain closure `%s` is not `<entry's task> != %s`" % (what, clo, idname))
+        if re.search(r"\bin_flight\b", body):
+            raise Unreadable("%s: in_flight is touched, but not by a recognised retain" % what)
+        return False
+    hard(["purge_on_finish"], lambda: {"purge_on_finish": B(purge_in(facts.get("_finisher_body"), facts.get("_finisher_id") or "task_id", finisher or "the finishing function"))})
+
+    # 2. the run loop: order, flags and comparison of the two finishing tests
+    def loop():
+        if not finisher:
+            raise Unreadable("CommandHub::run: the finishing calls are not recognised")
+        f = re.escape(finisher)
+        call = r"self\s*\.\s*%s\s*\(\s*%s\s*,\s*%s\s*,\s*(true|false)\s*\)\s*;\s*return\s+None\s*;" % (f, W, W)
+        m1 = re.search(r"\bif\s+[\w.\s()]*?\.\s*has_finished\s*\(\s*\)\s*\{\s*" + call, run)
+        nowm = re.search(r"\blet\s+(%s)\s*=\s*Instant::now\s*\(\s*\)\s*;" % W, run)
+        if not m1 or not nowm:
+            raise Unreadable("CommandHub::run: the has_finished test of the task filter is not recognised")
+        now = nowm.group(1)
+        m2 = re.search(r"\bif\s+let\s+Some\s*\(\s*(%s)\s*\)\s*=\s*%s\s*\.\s*timeout\s*(?:\{\s*if|&&)\s*(%s)\s*(<=|>=|<|>)\s*(%s)\s*\{\s*" % (W, W, W, W) + call, run)
+        if not m2:
+            m2g = re.search(r"\bSome\s*\(\s*(%s)\s*\)\s+if\s+(%s)\s*(<=|>=|<|>)\s*(%s)\s*=>\s*\{\s*" % (W, W, W) + call, run)
+            if not m2g:
+                raise Unreadable("CommandHub::run: the deadline test of the task filter is not recognised")
+            m2 = m2g
+        dl, a, op, b, flag2 = m2.groups()
+        if (a, b) == (dl, now):
+            pass
+        elif (a, b) == (now, dl):
+            op = {"<": ">", ">": "<", "<=": ">=", ">=": "<="}[op]
+        else:
+            raise Unreadable("CommandHub::run: the deadline test does not compare the task's deadline with `%s`" % now)
+        return {"flag_when_finished": m1.group(1), "flag_when_expired": flag2,
+                "finished_checked_first": B(m1.start() < m2.start()),
+                "expired": CMP_N[op].format(a="deadline", b="now")}
+    hard(["flag_when_finished", "flag_when_expired", "finished_checked_first", "expired"], loop)
 
     # 3. DefaultGatherer: has_finished and the on_message arms
-    dg = body_after(srv, r"impl Gatherer for DefaultGatherer\s*\{", "impl Gatherer for DefaultGatherer", fails)
-    m = re.search(r"fn has_finished\(&self\) -> bool \{\s*self\.ok \+ self\.errors (>=|<=|==|!=|>|<) self\.expected_responses\s*\}", dg)
-    if not m:
-        fails.append("DefaultGatherer::has_finished: not `self.ok + self.errors <cmp> self.expected_responses`")
-        g.append("Definition has_finished (ok errors expected : nat) : bool := false.")
-    else:
-        g.append("Definition has_finished (ok errors expected : nat) : bool := %s." % CMP_NAT[m.group(1)].format(a="ok + errors", b="expected"))
-    if not re.search(r"fn inc_expected_responses\(&mut self, count: usize\) \{\s*let before = self\.expected_responses;\s*self\.expected_responses \+= count;", dg):
-        fails.append("DefaultGatherer::inc_expected_responses: no longer `self.expected_responses += count`")
-    om = body_after(dg, r"fn on_message\(", "DefaultGatherer::on_message", fails)
-    mm = body_after(om, r"match ResponseStatus::try_from\(message\.status\)\s*\{", "on_message match", fails)
-    arms = {}
-    for name, pat in (("SOk", r"Ok\(ResponseStatus::Ok\)"), ("SFailure", r"Ok\(ResponseStatus::Failure\)"),
-                      ("SProcessing", r"Ok\(ResponseStatus::Processing\)"), ("SInvalid", r"Err\(\w+\)")):
-        m = re.search(pat + r"\s*=>\s*(.*?)(?=\n\s*(?:Ok\(ResponseStatus::|Err\(|\}\s*$))", mm, re.S)
-        if not m:
-            fails.append("DefaultGatherer::on_message: no arm for %s" % name)
-            arms[name] = "Nothing"
-            continue
-        a = m.group(1)
-        kinds = [k for k, p in (("IncOk", r"self\.ok \+= 1"), ("IncErr", r"self\.errors \+= 1"), ("Notice", r"return_processing")) if re.search(p, a)]
-        if len(kinds) > 1:
-            fails.append("DefaultGatherer::on_message: arm %s does several things" % name)
-        arms[name] = kinds[0] if kinds else "Nothing"
-    g.append("Definition on_message_arm (st : status) : arm :=\n  match st with SOk => %s | SProcessing => %s | SFailure => %s | SInvalid => %s end."
-             % (arms["SOk"], arms["SProcessing"], arms["SFailure"], arms["SInvalid"]))
+    try:
+        dg = block_at(srv, r"\bimpl\s+Gatherer\s+for\s+DefaultGatherer\s*\{", "impl Gatherer for DefaultGatherer")
+    except Unreadable as ex:
+        fails.append(str(ex))
+        dg = ""
 
-    # 4. handle_worker_response: a terminal response retires its request id
-    hwr = body_after(srv, r"fn handle_worker_response\(&mut self, worker_id: WorkerId, response: WorkerResponse\)\s*\{", "handle_worker_response", fails)
-    retired = set()
-    m = re.search(r"let retired_id = match ResponseStatus::try_from\(response\.status\) \{\s*((?:\|?\s*Ok\(ResponseStatus::\w+\)\s*)+)=> Some\(response\.id\.clone\(\)\),\s*_ => None,\s*\};", hwr)
-    if m and re.search(r"if let Some\(id\) = retired_id \{\s*self\.server\.in_flight\.remove\(&id\);\s*\}", hwr):
-        retired = set(re.findall(r"ResponseStatus::(\w+)", m.group(1)))
-    elif "retired_id" in hwr or "in_flight.remove" in hwr:
-        fails.append("handle_worker_response: the in-flight retire is no longer recognised")
-    if not re.search(r"let Some\(task_id\) = self\.in_flight\.get\(&response\.id\)\.copied\(\) else \{", hwr) or \
-       not re.search(r"let task = match self\.tasks\.get_mut\(&task_id\) \{", hwr):
-        fails.append("handle_worker_response: the in_flight / tasks lookups are no longer recognised")
-    g.append("Definition retire_on_terminal (st : status) : bool :=\n  match st with SOk => %s | SProcessing => %s | SFailure => %s | SInvalid => false end."
-             % tuple("true" if n in retired else "false" for n in ("Ok", "Processing", "Failure")))
+    def has_finished():
+        _, body = fn_at(dg, "has_finished", "DefaultGatherer::has_finished")
+        e = squash(body).replace("returnself", "self").rstrip(";")
+        m = re.fullmatch(r"(.+?)(>=|<=|==|!=|>|<)(.+)", e)
+        if not m:
+            raise Unreadable("DefaultGatherer::has_finished: not a comparison (`%s`)" % e)
+        l, op, r = m.groups()
+        tally = ("self.ok+self.errors", "self.errors+self.ok")
+        if l in tally and r == "self.expected_responses":
+            pass
+        elif r in tally and l == "self.expected_responses":
+            op = {"<": ">", ">": "<", "<=": ">=", ">=": "<=", "==": "==", "!=": "!="}[op]
+        else:
+            raise Unreadable("DefaultGatherer::has_finished: not `ok + errors <cmp> expected_responses` (`%s`)" % e)
+        return {"has_finished": CMP_NAT[op].format(a="ok + errors", b="expected")}
+    hard(["has_finished"], has_finished)
+
+    def inc_expected():
+        ptext, body = fn_at(dg, "inc_expected_responses", "DefaultGatherer::inc_expected_responses")
+        ps = params(ptext)
+        if len(ps) != 1 or not re.search(r"self\s*\.\s*expected_responses\s*\+=\s*%s\s*;" % re.escape(ps[0][0]), body):
+            raise Unreadable("DefaultGatherer::inc_expected_responses: not `self.expected_responses += <count>`")
+        return {}
+    hard([], inc_expected)
+
+    def status_of(pat):
+        """the statuses a match pattern on ResponseStatus::try_from(..) covers"""
+        if re.fullmatch(r"Err\s*\(\s*\w+\s*\)", pat):
+            return ["SInvalid"]
+        names = re.findall(r"ResponseStatus::(\w+)", pat)
+        if not names or not re.fullmatch(r"[\sA-Za-z_:()|]*", pat) or "Ok" not in pat:
+            return None
+        return ["S" + n for n in names]
+
+    def on_message():
+        ptext, body = fn_at(dg, "on_message", "DefaultGatherer::on_message")
+        msg = [n for n, ty in params(ptext) if ty == "WorkerResponse"]
+        if len(msg) != 1:
+            raise Unreadable("DefaultGatherer::on_message: expected one WorkerResponse parameter")
+        arms = arms_of(body, r"ResponseStatus::try_from\s*\(\s*%s\s*\.\s*status\s*\)" % re.escape(msg[0]), "DefaultGatherer::on_message: the match on the response status")
+        kinds = {}
+        for pat, arm in arms:
+            sts = status_of(pat) if pat != "_" else [s for s in ("SOk", "SFailure", "SProcessing", "SInvalid") if s not in kinds]
+            if sts is None:
+                raise Unreadable("DefaultGatherer::on_message: arm pattern `%s` not recognised" % pat)
+            k = [k for k, p in (("IncOk", r"self\s*\.\s*ok\s*\+=\s*1\b"), ("IncErr", r"self\s*\.\s*errors\s*\+=\s*1\b"), ("Notice", r"\.\s*return_processing\s*\(")) if re.search(p, arm)]
+            if len(k) > 1:
+                raise Unreadable("DefaultGatherer::on_message: arm `%s` does several things" % pat)
+            for s in sts:
+                kinds.setdefault(s, k[0] if k else "Nothing")
+        if sorted(kinds) != sorted(["SOk", "SFailure", "SProcessing", "SInvalid"]):
+            raise Unreadable("DefaultGatherer::on_message: the arms do not cover Ok/Failure/Processing/undecodable (%s)" % sorted(kinds))
+        return {"on_message_arm": "match st with SOk => %s | SProcessing => %s | SFailure => %s | SInvalid => %s end"
+                                  % (kinds["SOk"], kinds["SProcessing"], kinds["SFailure"], kinds["SInvalid"])}
+    hard(["on_message_arm"], on_message)
+
+    # 4. the function the run loop hands every worker response to: a terminal response retires its request id
+    hm = re.search(r"for\s+(%s)\s+in\s+%s\s*\{\s*self\s*\.\s*(%s)\s*\(\s*(%s)\s*,\s*\1\s*\)\s*;?\s*\}" % (W, W, W, W), run)
+    responder = hm.group(2) if hm else None
+
+    def retire():
+        if not responder:
+            raise Unreadable("CommandHub::run: the NewResponses arm (`for r in responses { self.<f>(worker_id, r) }`) is not recognised")
+        ptext, body = fn_at(srv, re.escape(responder), responder)
+        resp = [n for n, ty in params(ptext) if ty == "WorkerResponse"]
+        if len(resp) != 1:
+            raise Unreadable("%s: expected one WorkerResponse parameter" % responder)
+        r = re.escape(resp[0])
+        # the lookups: request id -> task id -> task
+        lk = re.search(r"\blet\s+Some\s*\(\s*(%s)\s*\)\s*=\s*self\s*\.\s*in_flight\s*\.\s*get\s*\(\s*&\s*%s\s*\.\s*id\s*\)\s*\.\s*(?:copied|cloned)\s*\(\s*\)\s*else\s*\{" % (W, r), body) or \
+            re.search(r"\blet\s+(%s)\s*=\s*match\s+self\s*\.\s*in_flight\s*\.\s*get\s*\(\s*&\s*%s\s*\.\s*id\s*\)" % (W, r), body)
+        if not lk or not re.search(r"self\s*\.\s*tasks\s*\.\s*get_mut\s*\(\s*&\s*%s\s*\)" % re.escape(lk.group(1)), body):
+            raise Unreadable("%s: the in_flight / tasks lookups are not recognised" % responder)
+        if not re.search(r"\.\s*on_message\s*\(", body):
+            raise Unreadable("%s: the response is no longer handed to the gatherer's on_message" % responder)
+        retired = None
+        m = re.search(r"\blet\s+(%s)\s*=\s*match\s+ResponseStatus::try_from\s*\(\s*%s\s*\.\s*status\s*\)\s*\{" % (W, r), body)
+        if m:
+            arms = rustmini.match_arms(body[m.end():rustmini.match_brace(body, m.end() - 1)])
+            some = [status_of(p) for p, a in arms if re.fullmatch(r"Some\(%s\.id\.clone\(\)\)" % r, squash(a))]
+            none = [p for p, a in arms if squash(a) == "None"]
+            if len(some) + len(none) != len(arms) or any(s is None for s in some):
+                raise Unreadable("%s: the arms of the retire decision are not recognised" % responder)
+            v = re.escape(m.group(1))
+            if not re.search(r"\bif\s+let\s+Some\s*\(\s*(%s)\s*\)\s*=\s*%s\s*\{\s*self\s*\.\s*(?:server\s*\.\s*)?in_flight\s*\.\s*remove\s*\(\s*&\s*\1\s*\)\s*;\s*\}" % (W, v), body):
+                raise Unreadable("%s: the decision `%s` is computed but the removal from in_flight is not recognised" % (responder, m.group(1)))
+            retired = set(s for ss in some for s in ss)
+        else:
+            m = re.search(r"\b(?:let\s+(%s)\s*=|if)\s*matches!\s*\(\s*ResponseStatus::try_from\s*\(\s*%s\s*\.\s*status\s*\)\s*,([^;{]*?)\)\s*[;{]" % (W, r), body)
+            if m and re.search(r"in_flight\s*\.\s*remove\s*\(", body):
+                sts = status_of(" ".join(m.group(2).split()))
+                if sts is None:
+                    raise Unreadable("%s: the statuses of the retire test are not recognised" % responder)
+                retired = set(sts)
+            elif re.search(r"in_flight\s*\.\s*remove\s*\(", body):
+                raise Unreadable("%s: in_flight.remove is there but the retire decision is not recognised" % responder)
+            else:
+                retired = set()
+        return {"retire_on_terminal": "match st with SOk => %s | SProcessing => %s | SFailure => %s | SInvalid => %s end"
+                                      % tuple(B(s in retired) for s in ("SOk", "SProcessing", "SFailure", "SInvalid"))}
+    hard(["retire_on_terminal"], retire)
 
     # 5. scatter_on: which workers are targeted, one in-flight id and one expected response each
-    so = body_after(srv, r"pub fn scatter_on\(", "Server::scatter_on", fails)
-    skips = bool(re.search(r"\.map\(\|id\| id == w\.id && w\.run_state != RunState::Stopped\)\s*\.unwrap_or\(w\.run_state != RunState::Stopped\)", so))
-    if not skips and "RunState::" in so:
-        if not re.search(r"\.unwrap_or\(true\)", so):
-            fails.append("Server::scatter_on: worker filter not recognised")
-    g.append("Definition scatter_skips_stopped : bool := %s." % ("true" if skips else "false"))
-    for pat, what in ((r"worker_count \+= 1;", "worker_count += 1"),
-                      (r"worker\.send\(&worker_request\);\s*self\.in_flight\.insert\(worker_request\.id, task_id\);", "send + in_flight.insert"),
-                      (r"task\.job\.get_gatherer\(\)\.inc_expected_responses\(worker_count\);", "inc_expected_responses(worker_count)"),
-                      (r'"\{\}-\{\}-\{\}-\{\}",\s*worker_request\.content\.short_name\(\),\s*worker\.id,\s*task_id,\s*request_id,', "request id format")):
-        if not re.search(pat, so):
-            fails.append("Server::scatter_on: `%s` no longer recognised" % what)
-    nt = body_after(srv, r"pub fn new_task\(", "Server::new_task", fails)
-    if not re.search(r"Timeout::None => None,\s*Timeout::Default => Some\(Duration::from_secs\(self\.config\.worker_timeout as u64\)\),", nt) or \
-       not re.search(r"\.map\(\|duration\| Instant::now\(\) \+ duration\);", nt):
-        fails.append("Server::new_task: deadline computation no longer recognised")
-    closes = bool(re.search(r"WorkerResult::CloseSession => \{\s*self\.handle_worker_close\(&token\);\s*self\.fail_requests_in_flight_to\(worker_id\);\s*\}", run))
-    if not closes and not re.search(r"WorkerResult::CloseSession => self\.handle_worker_close\(&token\),", run):
-        fails.append("CommandHub::run: the CloseSession arm is no longer recognised")
-    if closes:
-        ff = body_after(srv, r"fn fail_requests_in_flight_to\(&mut self, worker_id: WorkerId\)\s*\{", "fail_requests_in_flight_to", fails)
-        if not re.search(r"\.filter\(\|id\| worker_of_request_id\(id\) == Some\(worker_id\)\)", ff) or \
-           not re.search(r"for id in orphans \{\s*self\.handle_worker_response\(\s*worker_id,\s*WorkerResponse \{\s*id,\s*status: ResponseStatus::Failure\.into\(\),", ff):
-            fails.append("fail_requests_in_flight_to: no longer answers a failure for every request in flight to that worker")
-            closes = False
-        if not re.search(r"fn worker_of_request_id\(id: &str\) -> Option<WorkerId> \{\s*id\.rsplitn\(4, '-'\)\.nth\(2\)\?\.parse\(\)\.ok\(\)\s*\}", srv):
-            fails.append("worker_of_request_id: no longer the third field from the right of the request id")
-            closes = False
-    g.append("Definition close_fails_in_flight : bool := %s." % ("true" if closes else "false"))
-    ct = body_after(srv, r"pub fn cancel_task\(&mut self, task_id: TaskId\)\s*\{", "Server::cancel_task", fails)
-    if not re.search(r"self\.queued_tasks\.remove\(&task_id\);", ct):
-        fails.append("Server::cancel_task no longer removes the task")
-    g.append("Definition cancel_purges : bool := %s." % ("true" if re.search(r"self\.in_flight\s*\.retain\(\|_, in_flight_task_id\| \*in_flight_task_id != task_id\);", ct) else "false"))
-    ls = body_after(rq, r"pub fn load_state\(", "load_state", fails)
-    if not re.search(r"Err\(message\) => \{.*?client\.finish_failure\(message\);\s*server\.cancel_task\(task_id\);\s*\}", ls, re.S):
-        fails.append("load_state: the parse-error path is no longer `finish_failure(message); cancel_task(task_id)`")
-    if not re.search(r"Ok\(\(\)\) => \{\s*client\.return_processing\(", ls) or len(re.findall(r"server\.cancel_task\(", ls)) != 1:
-        fails.append("load_state: the success path / the single cancel_task are no longer recognised")
-    if len(re.findall(r"client\.finish_(?:ok|failure)\(", ls)) != 3:
-        fails.append("load_state: expected three early finish_failure (missing file, unreadable file, parse error) and nothing else")
-    cw = body_after(srv, r"pub fn close_worker\(", "Server::close_worker", fails)
-    if not re.search(r"worker\.run_state = RunState::Stopped;", cw):
-        fails.append("Server::close_worker: no longer marks the worker Stopped")
+    def scatter_on():
+        ptext, so = fn_at(srv, "scatter_on", "Server::scatter_on")
+        ps = params(ptext)
+        tid = [n for n, ty in ps if ty == "TaskId"]
+        tgt = [n for n, ty in ps if squash(ty) == "Option<WorkerId>"]
+        idx = [n for n, ty in ps if ty == "usize"]
+        if len(tid) != 1 or len(tgt) != 1 or len(idx) != 1:
+            raise Unreadable("Server::scatter_on: parameters (task id, request index, target) not recognised")
+        fm = re.search(r"\.\s*filter\s*\(\s*\|\s*(%s)\s*\|" % W, so)
+        if not fm:
+            raise Unreadable("Server::scatter_on: the worker filter is not recognised")
+        i = so.index("(", fm.start())
+        clo = squash(so[fm.end():rustmini.match_brace(so, i, "(", ")")]).strip("{}")
+        w = re.escape(fm.group(1))
+        t = re.escape(tgt[0])
+        live = r"(?:%s\.run_state!=RunState::Stopped|!\(%s\.run_state==RunState::Stopped\))" % (w, w)
+        if re.fullmatch(r"%s\.map\(\|(\w+)\|(?:\1==%s\.id|%s\.id==\1)&&%s\)\.unwrap_or\(%s\)" % (t, w, w, live, live), clo) or \
+           re.fullmatch(r"%s&&%s\.(?:map\(\|(\w+)\|(?:\1==%s\.id|%s\.id==\1)\)\.unwrap_or\(true\)|is_none_or\(\|(\w+)\|(?:\2==%s\.id|%s\.id==\2)\))" % (live, t, w, w, w, w), clo):
+            skips = True
+        elif re.fullmatch(r"%s\.map\(\|(\w+)\|(?:\1==%s\.id|%s\.id==\1)\)\.unwrap_or\(true\)" % (t, w, w), clo):
+            skips = False
+        else:
+            raise Unreadable("Server::scatter_on: the worker filter `%s` is not recognised" % clo)
+        cm = re.search(r"\blet\s+mut\s+(%s)\s*=\s*0\s*;" % W, so)
+        lm = re.search(r"\bfor\s+(%s)\s+in\b" % W, so)
+        if not cm or not lm:
+            raise Unreadable("Server::scatter_on: the counter / the loop over the workers are not recognised")
+        cnt, wk = re.escape(cm.group(1)), re.escape(lm.group(1))
+        if len(re.findall(r"\b%s\s*\+=\s*1\s*;" % cnt, so)) != 1:
+            raise Unreadable("Server::scatter_on: `%s += 1` per targeted worker is not recognised" % cm.group(1))
+        sm = re.search(r"\b%s\s*\.\s*send\s*\(\s*&\s*(%s)\s*\)\s*;\s*self\s*\.\s*in_flight\s*\.\s*insert\s*\(\s*\1\s*\.\s*id(?:\s*\.\s*clone\s*\(\s*\))?\s*,\s*%s\s*\)\s*;" % (wk, W, re.escape(tid[0])), so)
+        if not sm:
+            raise Unreadable("Server::scatter_on: `worker.send(&request); in_flight.insert(request.id, task_id)` is not recognised")
+        if not re.search(r"\.\s*inc_expected_responses\s*\(\s*%s\s*\)\s*;" % cnt, so):
+            raise Unreadable("Server::scatter_on: inc_expected_responses(<count of targeted workers>) is not recognised")
+        rqv = re.escape(sm.group(1))
+        raw_so = fn_at(re.sub(r"//[^\n]*", "", raw_srv), "scatter_on", "Server::scatter_on")[1]
+        im = re.search(r"%s\s*\.\s*id\s*=\s*format!\s*\(\s*\"([^\"]*)\"\s*((?:,[^;]*)?)\)\s*;" % rqv, raw_so)
+        if not im:
+            raise Unreadable("Server::scatter_on: the request id is no longer built by one format!")
+        fmt, args = im.group(1), [squash(a) for a in im.group(2).split(",") if a.strip()]
+        holes = re.findall(r"\{(\w*)\}", fmt)
+        if re.sub(r"\{\w*\}", "{}", fmt) != "{}-{}-{}-{}" or len(holes) != 4:
+            raise Unreadable("Server::scatter_on: request id format `%s` is not verb-worker-task-index" % fmt)
+        named = dict(a.split("=", 1) for a in args if re.match(r"\w+=[^=]", a))
+        positional = [a for a in args if not re.match(r"\w+=[^=]", a)]
+        got = []
+        for h in holes:
+            if h == "":
+                got.append(positional.pop(0) if positional else "?")
+            else:
+                got.append(named.get(h, h))
+        want = [r"%s\.content\.short_name\(\)" % rqv, r"%s\.id" % wk, re.escape(tid[0]), re.escape(idx[0])]
+        for g_, w_ in zip(got, want):
+            if not re.fullmatch(w_, g_):
+                bound = re.search(r"\blet\s+%s\s*=\s*([^;]*);" % re.escape(g_), so)
+                if not (bound and re.fullmatch(w_, squash(bound.group(1)))):
+                    raise Unreadable("Server::scatter_on: the request id is no longer verb-worker-task-index (got `%s`)" % "-".join(got))
+        return {"scatter_skips_stopped": B(skips)}
+    hard(["scatter_skips_stopped"], scatter_on)
 
-    # 6. verdicts
-    wt = body_after(rq, r"impl GatheringTask for WorkerTask\s*\{", "impl GatheringTask for WorkerTask", fails)
-    m = re.search(r"if ([^{}]*?) \{\s*client\.finish_failure\(messages\.join\(\", \"\)\);\s*\} else \{\s*client\.finish_ok\(\"Successfully applied request to all workers\"\);\s*\}", wt)
-    if not m:
-        fails.append("WorkerTask::on_finish: final answer not recognised")
-        g.append("Definition worker_fails (errors : nat) (timed_out : bool) : bool := false.")
-    else:
-        g.append("Definition worker_fails (errors : nat) (timed_out : bool) : bool := %s."
-                 % cond_to_coq(m.group(1), {"errors": "errors", "timed_out": "timed_out"}, fails, "WorkerTask verdict"))
-    if not re.search(r"let errors = self\.gatherer\.errors;", wt):
-        fails.append("WorkerTask::on_finish: `errors` is no longer the gatherer's error count")
-    if len(re.findall(r"client\.finish_(?:ok|failure)", wt)) != 2:
-        fails.append("WorkerTask::on_finish: expected exactly one finish_ok and one finish_failure")
-    lt = body_after(rq, r"impl GatheringTask for LoadStateTask\s*\{", "impl GatheringTask for LoadStateTask", fails)
-    m = re.search(r"if ([^{}]*?) \{\s*client\.finish_ok\(format!\(\s*\"Successfully loaded state[^;]*;\s*return;\s*\}\s*client\.finish_failure\(", lt)
-    if not m:
-        fails.append("LoadStateTask::on_finish: final answer not recognised")
-        g.append("Definition load_ok (errors : nat) (timed_out : bool) : bool := true.")
-    else:
-        g.append("Definition load_ok (errors : nat) (timed_out : bool) : bool := %s."
-                 % cond_to_coq(m.group(1), {"errors": "errors", "timed_out": "timed_out"}, fails, "LoadStateTask verdict"))
-    if len(re.findall(r"client\.finish_(?:ok|failure)\(", lt)) != 2:
-        fails.append("LoadStateTask::on_finish: expected exactly one finish_ok and one finish_failure")
-    st = body_after(rq, r"impl GatheringTask for StopTask\s*\{", "impl GatheringTask for StopTask", fails)
-    atoms = {"timed_out": "timed_out", "self.hardness": "hardness", "self.gatherer.errors": "errors"}
-    m = re.search(r"let hard_stop_timed_out = ([^;]*);\s*if hard_stop_timed_out \{\s*client\.finish_failure\(", st)
-    m2 = re.search(r"if hard_stop_timed_out \{\s*\} else if ([^{}]*?) \{\s*client\.finish_failure\(.*?\} else \{\s*client\.finish_ok\(", st, re.S)
-    m2b = re.search(r"if !hard_stop_timed_out \{\s*client\.finish_ok\(", st)
-    m_old = re.search(r"if (timed_out && self\.hardness) \{\s*client\.finish_failure\(", st)
-    if m and m2:
-        g.append("Definition stop_fails (timed_out hardness : bool) (errors : nat) : bool := (%s || %s)."
-                 % (cond_to_coq(m.group(1), atoms, fails, "StopTask verdict"), cond_to_coq(m2.group(1), atoms, fails, "StopTask verdict")))
-        g.append("Definition stop_ok_after_failure : bool := false.")
-    elif m and m2b:
-        g.append("Definition stop_fails (timed_out hardness : bool) (errors : nat) : bool := %s." % cond_to_coq(m.group(1), atoms, fails, "StopTask verdict"))
-        g.append("Definition stop_ok_after_failure : bool := false.")
-    elif m_old:
-        g.append("Definition stop_fails (timed_out hardness : bool) (errors : nat) : bool := %s." % cond_to_coq(m_old.group(1), atoms, fails, "StopTask verdict"))
-        g.append("Definition stop_ok_after_failure : bool := true.")
-    else:
-        fails.append("StopTask::on_finish: final answer not recognised")
-        g += ["Definition stop_fails (timed_out hardness : bool) (errors : nat) : bool := false.", "Definition stop_ok_after_failure : bool := true."]
-    if len(re.findall(r"client\.finish_(?:ok|failure)\(", st)) != 3:
-        fails.append("StopTask::on_finish: expected two finish_failure and one finish_ok")
-    if not re.search(r"server\.run_state = ServerState::Stopping;", st):
-        fails.append("StopTask::on_finish: no longer moves the server to Stopping")
-    for name, what in (("QueryClustersTask", "Successfully queried clusters"), ("StatusTask", "Successfully collected the status of workers")):
-        b = body_after(rq, r"impl GatheringTask for %s\s*\{" % name, name, fails)
-        if len(re.findall(r"client\.finish_\w+\(", b)) != 1 or what not in b:
-            fails.append("%s::on_finish: expected a single unconditional finish_ok_with_content" % name)
+    def new_task():
+        ptext, nt = fn_at(srv, "new_task", "Server::new_task")
+        tm = [n for n, ty in params(ptext) if ty == "Timeout"]
+        if len(tm) != 1:
+            raise Unreadable("Server::new_task: expected one Timeout parameter")
+        arms = dict((squash(p), squash(a)) for p, a in arms_of(nt, re.escape(tm[0]), "Server::new_task: the match on the Timeout"))
+        if arms.get("Timeout::None") != "None" or \
+           not re.fullmatch(r"Some\(Duration::from_secs\((?:self\.config\.worker_timeoutasu64|u64::from\(self\.config\.worker_timeout\)|self\.config\.worker_timeout\.into\(\))\)\)", arms.get("Timeout::Default", "")):
+            raise Unreadable("Server::new_task: the deadline of Timeout::None / Timeout::Default is not recognised")
+        if not re.search(r"\.map\(\|(\w+)\|(?:Instant::now\(\)\+\1|\1\+Instant::now\(\))\)", squash(nt)):
+            raise Unreadable("Server::new_task: the deadline is no longer now + duration")
+        return {}
+    hard([], new_task)
 
-    # 7. the Timeout of every scatter
-    def tmo_in(fn_re, what, nth=0):
-        b = body_after(rq, fn_re, what, fails)
+    def close_session():
+        am = re.search(r"WorkerResult::CloseSession\s*=>\s*", run)
+        if not am:
+            raise Unreadable("CommandHub::run: no WorkerResult::CloseSession arm")
+        rest = run[am.end():]
+        if rest.startswith("{"):
+            arm = rest[1:rustmini.match_brace(rest, 0)]
+        else:
+            arm = rest[:rest.index(",")]
+        stmts = [s.strip() for s in arm.split(";") if s.strip()]
+        if not stmts or not re.fullmatch(r"self\s*\.\s*handle_worker_close\s*\(\s*&\s*\w+\s*\)", stmts[0]):
+            raise Unreadable("CommandHub::run: the CloseSession arm no longer starts with handle_worker_close")
+        if len(stmts) == 1:
+            return {"close_fails_in_flight": "false"}
+        cm = re.fullmatch(r"self\s*\.\s*(%s)\s*\(\s*(%s)\s*\)" % (W, W), stmts[1])
+        if len(stmts) != 2 or not cm:
+            raise Unreadable("CommandHub::run: the CloseSession arm is not `handle_worker_close(..); self.<f>(worker_id)`")
+        callee = cm.group(1)
+        ptext, ff = fn_at(srv, re.escape(callee), callee)
+        ps = params(ptext)
+        if len(ps) != 1 or ps[0][1] != "WorkerId":
+            raise Unreadable("%s: expected one WorkerId parameter" % callee)
+        wid = re.escape(ps[0][0])
+        if not responder:
+            raise Unreadable("%s: the response handler it should call is not known" % callee)
+        # the ids selected: those of in_flight whose issuing worker is this one
+        fm = re.search(r"self\s*\.\s*in_flight\s*\.\s*keys\s*\(\s*\)\s*\.\s*filter\s*\(\s*\|\s*(%s)\s*\|\s*(%s)\s*\(\s*\1\s*\)\s*==\s*Some\s*\(\s*%s\s*\)\s*\)" % (W, W, wid), ff)
+        if not fm:
+            raise Unreadable("%s: no longer selects the in-flight request ids issued to that worker" % callee)
+        helper = fm.group(2)
+        hp, hb = fn_at(srv, re.escape(helper), helper)
+        hps = params(hp)
+        if len(hps) != 1 or not re.fullmatch(r"(?:return)?%s\.rsplitn\(4,'c'\)\.nth\(2\)\?\.parse(?:::<\w+>)?\(\)\.ok\(\);?" % re.escape(hps[0][0]), squash(hb)):
+            raise Unreadable("%s: no longer the third field from the right of the request id" % helper)
+        raw_h = fn_at(re.sub(r"//[^\n]*", "", raw_srv), re.escape(helper), helper)[1]
+        if "rsplitn(4, '-')" not in raw_h and "rsplitn(4,'-')" not in squash(raw_h):
+            raise Unreadable("%s: the request id is no longer split on '-'" % helper)
+        lm = re.search(r"\blet\s+(%s)\b[^=;]*=\s*self\s*\.\s*in_flight" % W, ff)
+        lp = re.search(r"\bfor\s+(%s)\s+in\s+(%s)\s*\{" % (W, W), ff)
+        if not lm or not lp or lp.group(2) != lm.group(1):
+            raise Unreadable("%s: the loop over the selected ids is not recognised" % callee)
+        idv = re.escape(lp.group(1))
+        if not re.search(r"self\s*\.\s*%s\s*\(\s*%s\s*,\s*WorkerResponse\s*\{\s*id(?:\s*:\s*%s)?\s*,\s*status\s*:\s*ResponseStatus::Failure\s*(?:\.\s*into\s*\(\s*\)|as\s+i32)\s*," % (re.escape(responder), wid, idv), ff) \
+           or lp.group(1) != "id" and not re.search(r"\bid\s*:\s*%s\b" % idv, ff):
+            raise Unreadable("%s: no longer hands a Failure response for every selected id to %s" % (callee, responder))
+        return {"close_fails_in_flight": "true"}
+    hard(["close_fails_in_flight"], close_session)
+
+    def cancel():
+        ptext, ct = fn_at(srv, "cancel_task", "Server::cancel_task")
+        ps = params(ptext)
+        if len(ps) != 1 or not re.search(r"self\s*\.\s*queued_tasks\s*\.\s*remove\s*\(\s*&\s*%s\s*\)" % re.escape(ps[0][0]), ct):
+            raise Unreadable("Server::cancel_task: no longer removes the task from queued_tasks")
+        return {"cancel_purges": B(purge_in(ct, ps[0][0], "Server::cancel_task"))}
+    hard(["cancel_purges"], cancel)
+
+    def load_state():
+        ptext, ls = fn_at(rq, "load_state", "load_state")
+        ps = params(ptext)
+        if len(ps) != 3:
+            raise Unreadable("load_state: expected (server, client, path)")
+        sv = re.escape(ps[0][0])
+        tm = re.search(r"\blet\s+(%s)\s*=\s*%s\s*\.\s*new_task\s*\(" % (W, sv), ls)
+        if not tm:
+            raise Unreadable("load_state: the task creation is not recognised")
+        tid = re.escape(tm.group(1))
+        cancels = list(re.finditer(r"%s\s*\.\s*cancel_task\s*\(\s*%s\s*\)" % (sv, tid), ls))
+        if len(cancels) != 1 or len(re.findall(r"\.\s*cancel_task\s*\(", ls)) != 1:
+            raise Unreadable("load_state: expected exactly one cancel_task(<the task>)")
+        # the error arm: finish_failure + cancel_task; the success arm: a PROCESSING notice, no final answer
+        em = None
+        for m in re.finditer(r"\bErr\s*\(\s*(%s)\s*\)\s*=>\s*\{" % W, ls):
+            arm = ls[m.end():rustmini.match_brace(ls, m.end() - 1)]
+            if re.search(r"\.\s*cancel_task\s*\(", arm):
+                em = (m.group(1), arm)
+        if not em or len(re.findall(r"\.\s*finish_failure\s*\(\s*%s\s*\)" % re.escape(em[0]), em[1])) != 1 or len(FINISH.findall(em[1])) != 1:
+            raise Unreadable("load_state: the parse-error path is no longer `finish_failure(message); cancel_task(task)`")
+        ok = re.search(r"\bOk\s*\(\s*\(\s*\)\s*\)\s*=>\s*\{", ls)
+        okarm = ls[ok.end():rustmini.match_brace(ls, ok.end() - 1)] if ok else ""
+        if not ok or not re.search(r"\.\s*return_processing\s*\(", okarm) or FINISH.search(okarm):
+            raise Unreadable("load_state: the success path (a PROCESSING notice, no final answer) is not recognised")
+        kinds = [f for f in FINISH.findall(ls)]
+        if kinds != ["finish_failure"] * 3:
+            raise Unreadable("load_state: expected three early finish_failure (missing file, unreadable file, parse error) and nothing else, found %s" % kinds)
+        return {}
+    hard([], load_state)
+
+    def close_worker():
+        _, cw = fn_at(srv, "close_worker", "Server::close_worker")
+        if not re.search(r"\b%s\s*\.\s*run_state\s*=\s*RunState::Stopped\s*;" % W, cw):
+            raise Unreadable("Server::close_worker: no longer marks the worker Stopped")
+        return {}
+    hard([], close_worker)
+
+    # 6. verdicts: the if/else/return skeleton of every on_finish is run for every combination of its inputs
+    def single(table, what):
+        for combo, calls in table.items():
+            if len(calls) != 1:
+                raise Differs("%s: for %s the client gets %d final answers (%s)" % (what, dict(combo), len(calls), ", ".join(calls) or "none"))
+
+    def flat(table, what):
+        """errors = 1 and errors = 2 must agree: the model knows `no error` / `some error`"""
+        for combo, calls in table.items():
+            d = dict(combo)
+            if d["self.gatherer.errors"] == 2:
+                d["self.gatherer.errors"] = 1
+                if table[tuple(sorted(d.items()))] != calls:
+                    raise Differs("%s: the verdict depends on the number of errors beyond zero / non-zero" % what)
+
+    def combos(hardness):
+        out = []
+        for e in (0, 1, 2):
+            for t in (False, True):
+                for h in ((False, True) if hardness else (False,)):
+                    c = {"self.gatherer.errors": e, "_t": t}
+                    if hardness:
+                        c["self.hardness"] = h
+                    out.append(c)
+        return out
+
+    def verdicts_of(task, hardness):
+        what = "%s::on_finish" % task
+        body, tname = on_finish_of(rq, task, what)
+        cs = []
+        for c in combos(hardness):
+            c = dict(c)
+            c[tname] = c.pop("_t")
+            cs.append(c)
+        table = verdict_table(body, {}, cs, what)
+        flat(table, what)
+        # re-key on (errors > 0, timed_out, hardness)
+        out = {}
+        for combo, calls in table.items():
+            d = dict(combo)
+            if d["self.gatherer.errors"] == 2:
+                continue
+            out[(d["self.gatherer.errors"] > 0, d[tname], d.get("self.hardness", False))] = calls
+        return out, body
+
+    def nat_bool_match(fn):
+        """`match errors, timed_out with ...` rows from fn(some_error, timed_out)"""
+        return ("match errors, timed_out with | O, false => %s | O, true => %s | S _, false => %s | S _, true => %s end"
+                % (B(fn(False, False)), B(fn(False, True)), B(fn(True, False)), B(fn(True, True))))
+
+    def worker_task():
+        t, _ = verdicts_of("WorkerTask", False)
+        single(t, "WorkerTask::on_finish")
+        return {"worker_fails": nat_bool_match(lambda e, to: t[(e, to, False)] == ("finish_failure",))}
+    soft(["worker_fails"], worker_task)
+
+    def load_task():
+        t, _ = verdicts_of("LoadStateTask", False)
+        single(t, "LoadStateTask::on_finish")
+        return {"load_ok": nat_bool_match(lambda e, to: t[(e, to, False)] == ("finish_ok",))}
+    soft(["load_ok"], load_task)
+
+    def stop_task():
+        t, body = verdicts_of("StopTask", True)
+        after = False
+        for k, calls in t.items():
+            if calls == ("finish_failure", "finish_ok"):
+                after = True
+            elif len(calls) != 1:
+                raise Differs("StopTask::on_finish: for (some error, timed out, hard) = %s the client gets %s" % (k, list(calls)))
+        rows = []
+        for to in (False, True):
+            for h in (False, True):
+                for e in (False, True):
+                    rows.append("| %s, %s, %s => %s" % (B(to), B(h), "S _" if e else "O", B(t[(e, to, h)][0] == "finish_failure")))
+        if not re.search(r"\b%s\s*\.\s*run_state\s*=\s*ServerState::Stopping\s*;" % W, body):
+            raise Differs("StopTask::on_finish: no longer moves the server to Stopping")
+        return {"stop_fails": "match timed_out, hardness, errors with " + " ".join(rows) + " end", "stop_ok_after_failure": B(after)}
+    soft(["stop_fails", "stop_ok_after_failure"], stop_task)
+
+    def query_tasks():
+        for task in ("QueryClustersTask", "StatusTask"):
+            what = "%s::on_finish" % task
+            body, tname = on_finish_of(rq, task, what)
+            t = verdict_table(body, {}, [{tname: False}, {tname: True}], what)
+            if set(t.values()) != {("finish_ok_with_content",)}:
+                raise Unreadable("%s: expected a single unconditional finish_ok_with_content, found %s" % (what, sorted(set(t.values()))))
+        return {}
+    hard([], query_tasks)
+
+    # 7+8. the dispatch of the verbs: found through the arms of handle_client_request
+    def dispatch():
+        ptext, hcr = fn_at(rq, "handle_client_request", "handle_client_request")
+        tm = re.search(r"\bmatch\s+(%s)\s*\{\s*RequestType::" % W, hcr)
+        if not tm:
+            raise Unreadable("handle_client_request: the match on the request type is not recognised")
+        arms = rustmini.match_arms(hcr[tm.end() - len("RequestType::"):rustmini.match_brace(hcr, hcr.index("{", tm.start()))])
+        by_verb = {}
+        for pat, arm in arms:
+            for v in re.findall(r"RequestType::(\w+)", pat):
+                by_verb[v] = arm
+        return by_verb, hcr
+
+    def callee_of(by_verb, verb):
+        arm = by_verb.get(verb)
+        m = re.fullmatch(r"\s*(%s)\s*\((.*)\)\s*;?\s*" % W, arm or "", re.S)
+        if not m:
+            raise Unreadable("handle_client_request: the %s arm is not a single call" % verb)
+        return m.group(1), squash(m.group(2))
+
+    def tmo_of(fname, what, pick=None):
+        _, b = fn_at(rq, re.escape(fname), what)
         t = re.findall(r"Timeout::(Default|None)", b)
-        if len(t) <= nth:
-            fails.append("%s: Timeout not found" % what)
-            return "TDefault"
-        return "T" + t[nth]
-    g.append("Definition tmo_worker : tmo := %s." % tmo_in(r"pub fn worker_request\(", "worker_request"))
-    tq = {tmo_in(r"pub fn query_clusters\(", "query_clusters"), tmo_in(r"fn query_metrics\(", "query_metrics"), tmo_in(r"fn status\(server", "status")}
-    if len(tq) != 1:
-        fails.append("query_clusters / query_metrics / status no longer share one Timeout (the model has one query kind)")
-    g.append("Definition tmo_query : tmo := %s." % sorted(tq)[0])
-    stop = body_after(rq, r"fn stop\(server: &mut Server, client: &mut ClientSession, hardness: bool\)\s*\{", "stop", fails)
-    m = re.search(r"if hardness \{.*?RequestType::HardStop.*?Timeout::(Default|None).*?\} else \{.*?RequestType::SoftStop.*?Timeout::(Default|None)", stop, re.S)
-    if not m:
-        fails.append("stop: the hard/soft scatter calls are no longer recognised")
-        g += ["Definition tmo_hardstop : tmo := TDefault.", "Definition tmo_softstop : tmo := TNone."]
-    else:
-        g.append("Definition tmo_hardstop : tmo := T%s." % m.group(1))
-        g.append("Definition tmo_softstop : tmo := T%s." % m.group(2))
-    g.append("Definition tmo_load : tmo := %s." % tmo_in(r"pub fn load_state\(", "load_state"))
+        if len(t) != 1:
+            raise Unreadable("%s: expected exactly one Timeout, found %s" % (what, t))
+        return "T" + t[0]
 
-    # 8. verbs the main process does not serve
-    hcr = body_after(rq, r"pub fn handle_client_request\(", "handle_client_request", fails)
-    a1 = re.search(r"None => \{\s*error!\(\"empty request sent by client \{:\?\}\", client\);\s*(client\.finish_failure\([^;]*\);)?\s*return;", hcr)
-    a2 = re.search(r"RequestType::LaunchWorker\(_\) => \{\s*(client\.finish_failure\()?", hcr)
-    a3 = re.search(r"RequestType::ReturnListenSockets\(_\) => \{\s*(client\.finish_failure\()?", hcr)
-    if not a1 or not a2 or not a3:
-        fails.append("handle_client_request: the arms of the unserved verbs are no longer recognised")
-        ans = []
-    else:
-        ans = [bool(a1.group(1)), bool(a2.group(1)), bool(a3.group(1))]
-    if ans and len(set(ans)) != 1:
-        fails.append("handle_client_request: unserved verbs are answered inconsistently (%r)" % ans)
-    g.append("Definition unserved_answered : bool := %s." % ("true" if ans and all(ans) else "false"))
+    def timeouts():
+        by_verb, hcr = dispatch()
+        out = {}
+        fw = set(callee_of(by_verb, v)[0] for v in ("AddCluster", "RemoveBackend", "AddHttpFrontend", "ActivateListener", "RemoveListener"))
+        if len(fw) != 1:
+            raise Unreadable("handle_client_request: the worker verbs no longer share one function")
+        out["tmo_worker"] = tmo_of(fw.pop(), "the function serving worker verbs")
+        tq = set()
+        for v in ("QueryClustersHashes", "QueryMetrics", "Status"):
+            tq.add(tmo_of(callee_of(by_verb, v)[0], "the function serving %s" % v))
+        if len(tq) != 1:
+            raise Unreadable("the query verbs (clusters, metrics, status) no longer share one Timeout (the model has one query kind)")
+        out["tmo_query"] = tq.pop()
+        (fs, a_soft), (fh, a_hard) = callee_of(by_verb, "SoftStop"), callee_of(by_verb, "HardStop")
+        if fs != fh or not a_soft.endswith(",false") or not a_hard.endswith(",true"):
+            raise Unreadable("handle_client_request: SoftStop / HardStop are no longer `<stop>(.., false)` / `<stop>(.., true)`")
+        ptext, stop = fn_at(rq, re.escape(fs), "the function serving the stops")
+        hv = [n for n, ty in params(ptext) if ty == "bool"]
+        if len(hv) != 1:
+            raise Unreadable("%s: expected one bool parameter (hardness)" % fs)
+        th = ts = None
+        for im in re.finditer(r"\bif\s+(!?)\s*%s\s*\{" % re.escape(hv[0]), stop):
+            e = rustmini.match_brace(stop, im.end() - 1)
+            then_b = stop[im.end():e]
+            em = re.match(r"\s*else\s*\{", stop[e + 1:])
+            if not em or "Timeout::" not in then_b:
+                continue
+            else_b = stop[e + 1 + em.end():rustmini.match_brace(stop, e + em.end())]
+            hard_b, soft_b = (then_b, else_b) if not im.group(1) else (else_b, then_b)
+            th, ts = re.findall(r"Timeout::(Default|None)", hard_b), re.findall(r"Timeout::(Default|None)", soft_b)
+            if len(th) != 1 or len(ts) != 1 or "RequestType::HardStop" not in hard_b or "RequestType::SoftStop" not in soft_b:
+                th = None
+            break
+        if not th:
+            raise Unreadable("%s: the hard/soft scatter calls are not recognised" % fs)
+        out["tmo_hardstop"], out["tmo_softstop"] = "T" + th[0], "T" + ts[0]
+        out["tmo_load"] = tmo_of(callee_of(by_verb, "LoadState")[0], "the function serving LoadState")
+        return out
+    hard(["tmo_worker", "tmo_query", "tmo_hardstop", "tmo_softstop", "tmo_load"], timeouts)
 
-    # 9. hot upgrade of the main process: what UpgradeData carries, what from_upgrade_data restores
-    up = strip_comments(open(os.path.join(vlib.REPO, "bin/src/command/upgrade.rs")).read())
-    ud = body_after(up, r"pub struct UpgradeData\s*\{", "UpgradeData", fails)
-    fields = re.findall(r"pub (\w+):", ud)
-    if sorted(fields) != sorted(["command_socket_fd", "config", "next_client_id", "next_session_id", "next_task_id", "next_worker_id", "workers", "state", "boot_generation"]):
-        fails.append("UpgradeData: its fields changed (%s): the hand-over model (C09/Model.v handover) carries state, counters and live workers, nothing else" % fields)
-    fu = body_after(srv, r"pub fn from_upgrade_data\(upgrade_data: UpgradeData\) -> Result<Self, HubError>\s*\{", "from_upgrade_data", fails)
-    for pat, what in ((r"server\.state = state;", "state"), (r"server\.next_task_id = next_task_id;", "next_task_id"),
-                      (r"server\.next_client_id = next_client_id;", "next_client_id"), (r"server\.next_session_id = next_session_id;", "next_session_id"),
-                      (r"server\.next_worker_id = next_worker_id;", "next_worker_id"), (r"server\.boot_generation = boot_generation;", "boot_generation"),
-                      (r"\.filter\(\|w\| w\.run_state != RunState::Stopped && w\.run_state != RunState::Stopping\)", "live workers only"),
-                      (r"clients: HashMap::new\(\),\s*tasks: HashMap::new\(\),", "no client, no task")):
-        if not re.search(pat, fu):
-            fails.append("from_upgrade_data: `%s` no longer recognised" % what)
-    gu = body_after(srv, r"pub fn generate_upgrade_data\(&self\) -> UpgradeData\s*\{", "generate_upgrade_data", fails)
-    for f in ("next_client_id", "next_session_id", "next_task_id", "next_worker_id", "boot_generation"):
-        if not re.search(r"%s: self\.%s," % (f, f), gu):
-            fails.append("generate_upgrade_data: %s is no longer carried over" % f)
-    um = body_after(up, r"pub fn upgrade_main\(server: &mut Server, client: &mut ClientSession\)\s*\{", "upgrade_main", fails)
-    if not re.search(r"if !received_ok_from_new_process \{\s*client\.finish_failure\([^;]*\);\s*\} else \{\s*client\.finish_ok\(.*?server\.run_state = ServerState::Stopping;", um, re.S):
-        fails.append("upgrade_main: the confirmation branch (failure | ok + Stopping) is no longer recognised")
+    def unserved():
+        by_verb, hcr = dispatch()
+        nm = re.search(r"\bNone\s*=>\s*\{", hcr)
+        if not nm:
+            raise Unreadable("handle_client_request: the `no request type` arm is not recognised")
+        none_arm = hcr[nm.end():rustmini.match_brace(hcr, nm.end() - 1)]
+        if not re.search(r"\breturn\b", none_arm):
+            raise Unreadable("handle_client_request: the `no request type` arm no longer returns")
+        ans = [len(FINISH.findall(none_arm))]
+        for v in ("LaunchWorker", "ReturnListenSockets"):
+            if v not in by_verb:
+                raise Unreadable("handle_client_request: no arm for %s" % v)
+            ans.append(len(FINISH.findall(by_verb[v])))
+        if any(a > 1 for a in ans) or len(set(ans)) != 1:
+            raise Unreadable("handle_client_request: unserved verbs are answered inconsistently (%r answers)" % ans)
+        if ans[0] and ("finish_failure" not in none_arm or any("finish_failure" not in by_verb[v] for v in ("LaunchWorker", "ReturnListenSockets"))):
+            raise Unreadable("handle_client_request: an unserved verb is no longer answered by a failure")
+        return {"unserved_answered": B(ans[0] == 1)}
+    hard(["unserved_answered"], unserved)
 
+    # 9. hot upgrade of the main process: what UpgradeData carries, what from_upgrade_data restores (hard: layout)
+    def upgrade():
+        ud = block_at(up, r"\bpub\s+struct\s+UpgradeData\s*\{", "UpgradeData")
+        fields = re.findall(r"\bpub\s+(\w+)\s*:", ud)
+        if sorted(fields) != sorted(["command_socket_fd", "config", "next_client_id", "next_session_id", "next_task_id", "next_worker_id", "workers", "state", "boot_generation"]):
+            raise Unreadable("UpgradeData: its fields changed (%s): the hand-over model (C09/Model.v handover) carries state, counters and live workers, nothing else" % fields)
+        _, fu = fn_at(srv, "from_upgrade_data", "from_upgrade_data")
+        fq = squash(fu)
+        for f in ("state", "next_task_id", "next_client_id", "next_session_id", "next_worker_id", "boot_generation"):
+            if not re.search(r"\b\w+\.%s=%s;" % (f, f), fq):
+                raise Unreadable("from_upgrade_data: `%s` is no longer restored" % f)
+        if not re.search(r"\.filter\(\|(\w+)\|\1\.run_state!=RunState::Stopped&&\1\.run_state!=RunState::Stopping\)", fq) and \
+           not re.search(r"\.filter\(\|(\w+)\|\1\.run_state!=RunState::Stopping&&\1\.run_state!=RunState::Stopped\)", fq):
+            raise Unreadable("from_upgrade_data: `live workers only` is no longer recognised")
+        if not re.search(r"\bclients:HashMap::new\(\),", fq) or not re.search(r"\btasks:HashMap::new\(\),", fq):
+            raise Unreadable("from_upgrade_data: the new hub no longer starts without client and without task")
+        _, gu = fn_at(srv, "generate_upgrade_data", "generate_upgrade_data")
+        gq = squash(gu)
+        for f in ("next_client_id", "next_session_id", "next_task_id", "next_worker_id", "boot_generation"):
+            if not re.search(r"\b%s:self\.%s," % (f, f), gq):
+                raise Unreadable("generate_upgrade_data: %s is no longer carried over" % f)
+        ptext, um = fn_at(up, "upgrade_main", "upgrade_main")
+        ps = params(ptext)
+        tree_ok = False
+        for m in re.finditer(r"\bif\s+(!?)\s*(%s)\s*\{" % W, um):
+            e = rustmini.match_brace(um, m.end() - 1)
+            a = um[m.end():e]
+            em = re.match(r"\s*else\s*\{", um[e + 1:])
+            if not em:
+                continue
+            b = um[e + 1 + em.end():rustmini.match_brace(um, e + em.end())]
+            bad, good = (a, b) if m.group(1) else (b, a)
+            if FINISH.findall(bad) == ["finish_failure"] and FINISH.findall(good) == ["finish_ok"] and \
+               re.search(r"\b%s\s*\.\s*run_state\s*=\s*ServerState::Stopping\s*;" % re.escape(ps[0][0] if ps else "server"), good) and \
+               not re.search(r"ServerState::Stopping", bad):
+                tree_ok = True
+        if not tree_ok:
+            raise Unreadable("upgrade_main: the confirmation branch (failure | ok + Stopping) is no longer recognised")
+        return {}
+    hard([], upgrade)
+
+    return {k: v for k, v in facts.items() if not k.startswith("_")}
+
+
+GEN_SHAPE = [
+    ("on_finish_flag", "Definition on_finish_flag (timed_out : bool) : bool := %s."),
+    ("purge_on_finish", "Definition purge_on_finish : bool := %s."),
+    ("flag_when_finished", "Definition flag_when_finished : bool := %s."),
+    ("flag_when_expired", "Definition flag_when_expired : bool := %s."),
+    ("finished_checked_first", "Definition finished_checked_first : bool := %s."),
+    ("expired", "Definition expired (deadline now : N) : bool := %s."),
+    ("has_finished", "Definition has_finished (ok errors expected : nat) : bool := %s."),
+    ("on_message_arm", "Definition on_message_arm (st : status) : arm :=\n  %s."),
+    ("retire_on_terminal", "Definition retire_on_terminal (st : status) : bool :=\n  %s."),
+    ("scatter_skips_stopped", "Definition scatter_skips_stopped : bool := %s."),
+    ("close_fails_in_flight", "Definition close_fails_in_flight : bool := %s."),
+    ("cancel_purges", "Definition cancel_purges : bool := %s."),
+    ("worker_fails", "Definition worker_fails (errors : nat) (timed_out : bool) : bool :=\n  %s."),
+    ("load_ok", "Definition load_ok (errors : nat) (timed_out : bool) : bool :=\n  %s."),
+    ("stop_fails", "Definition stop_fails (timed_out hardness : bool) (errors : nat) : bool :=\n  %s."),
+    ("stop_ok_after_failure", "Definition stop_ok_after_failure : bool := %s."),
+    ("tmo_worker", "Definition tmo_worker : tmo := %s."),
+    ("tmo_query", "Definition tmo_query : tmo := %s."),
+    ("tmo_hardstop", "Definition tmo_hardstop : tmo := %s."),
+    ("tmo_softstop", "Definition tmo_softstop : tmo := %s."),
+    ("tmo_load", "Definition tmo_load : tmo := %s."),
+    ("unserved_answered", "Definition unserved_answered : bool := %s."),
+]
+
+
+def translate(snapshot=False):
+    fails = []
+    facts = read_facts(fails)
+    if snapshot:
+        if fails:
+            raise SystemExit("not writing a snapshot from a tree the translator cannot read completely:\n  " + "\n  ".join(fails))
+        json.dump(facts, open(FACTS, "w"), indent=1, sort_keys=True)
+        return fails
+    try:
+        snap = json.load(open(FACTS))
+    except (OSError, ValueError):
+        snap = {}
+    missing = [k for k, _ in GEN_SHAPE if facts.get(k) is None and snap.get(k) is None]
+    if missing:
+        fails.append("the facts %s can neither be read from the source nor from props/c09_facts.json" % missing)
+        return fails
+    g = [shape % (facts[k] if facts.get(k) is not None else snap[k]) for k, shape in GEN_SHAPE]
     text = ("(* GENERATED by props/c09.py:translate from %s and %s — do not edit *)\n"
             "From Coq Require Import List Arith NArith Bool.\nFrom SV Require Import C09.Base.\n\n" % (SERVER, REQUESTS)) + "\n".join(g) + "\n"
     vlib.write_if_changed(os.path.join(vlib.COQ, "C09", "Gen.v"), text)
@@ -592,3 +1289,13 @@ def nontrivial(case, o):
             seen[k] = 1
     finals = any(t in (0, 2) for ob in o["obs"] for i, t in enumerate(ob) if isinstance(t, int) and "w" in ob and i < ob.index("w"))
     return scattered >= 1 and len(wev) >= 2 and (fault or dup) and finals
+
+
+if __name__ == "__main__":
+    import sys
+    if sys.argv[1:] == ["--snapshot"]:
+        translate(snapshot=True)
+        print("wrote", FACTS)
+    else:
+        for f in translate():
+            print(f)
